@@ -45,7 +45,7 @@ func run(cfg *hx.RunCfg) (*hx.Result, error) {
 			n = 1200
 		}
 	}
-	r := hx.NewRng(cfg.Seed)
+	r := hx.NewRng(hx.NewRng(cfg.Seed).U64()) // the streams of seeds k and k+1 are shifted copies otherwise
 	var jobs []cx.Job
 	for _, p := range cx.CorpusC05() {
 		jobs = append(jobs, cx.Job{P: p, Bucket: "corpus"})
@@ -54,7 +54,6 @@ func run(cfg *hx.RunCfg) (*hx.Result, error) {
 		p := cx.GenUniqueRace(r)
 		b := "unique-race"
 		if len(p.Init) == 0 {
-			p.CtxMs = 4000
 			if len(p.Schedule) > 30 {
 				p.Schedule = p.Schedule[:30]
 			}
